@@ -49,7 +49,8 @@ def reply_oracle(din, dout, acts, ap, sk, raw_out, out_bytes):
         root = root_of(allc, tid)
         root_shown = '[Com:%s]' % root in raw_out        # a thread whose range covers no text is not displayed at all (D11-like); then there is nothing to be shown with
         if root_shown and not blocks and not any(k in ('ACCEPT', 'REJECT') for k, _, _ in acts): return 'reply %s is not shown in the raw view although its thread (comment %s) is' % (nid, root)
-        if blocks and not any('[Com:%s]' % root in bk for bk in blocks): return 'reply %s is shown apart from the thread it answers' % nid
+        # (a thread may be displayed at several places when earlier replies have ranges of their own: with the comment it answers, or with the root)
+        if blocks and not any('[Com:%s]' % root in bk or '[Com:%s]' % tid in bk for bk in blocks): return 'reply %s is shown apart from the comment it answers and from its thread' % nid
     iss = docrun.struct_issues(out_bytes)
     if iss: return iss[0]
     return None
